@@ -31,10 +31,10 @@ import (
 
 // c02Keys: where the records of one service token live in the physical store.
 type c02Keys struct {
-	IDKey   string // physical key of the token record (.../sys/token/id/<salted id>)
-	Salted  string // last segment of IDKey
-	Cubby   string // the directory segment of the token's cubbyhole
-	LeaseID string // id of the token's own lease (suffix of .../sys/expire/id/)
+	IDKey    string // physical key of the token record (.../sys/token/id/<salted id>)
+	Salted   string // last segment of IDKey
+	Cubby    string // the directory segment of the token's cubbyhole
+	LeaseID  string // id of the token's own lease (suffix of .../sys/expire/id/)
 	LeaseKey string // physical key of that lease
 }
 
